@@ -6,6 +6,7 @@ import AmVerif.Model.Machine
 import AmVerif.Model.QueueProto
 import AmVerif.Model.Pipes
 import AmVerif.Model.History
+import AmVerif.Model.Dbg
 import AmVerif.Model.RpcCodec
 import AmVerif.Model.Time
 namespace Am
@@ -130,6 +131,8 @@ structure DState where
   qp : QP.St := { flag := false, queue := 0, pcs := [] }
   pipe : Pipes.Target := {}
   hcfg : Hist.Cfg := {}
+  dbgc : Dbg.Client := { n := 0, exc := 0 }
+  dbgf : Dbg.Filters := {}
   hdb : List Hist.Rec := []
   pipeNew : Bool := true
   pipeFlat : Bool := false
@@ -330,8 +333,50 @@ def stepHist (d : DState) (toks : List String) : Option (DState × String) :=
     some (d, s!"clock={showList m.clock} act={showList m.active} mtick={m.machTick}")
   | _ => none
 
+def bit (s : String) (i : Nat) : Bool := (s.toList.getD i '0') == '1'
+
+/-- debugger commands (C16). -/
+def stepDbg (d : DState) (toks : List String) : Option (DState × String) :=
+  match toks with
+  | ["dbg", "init", n, exc] =>
+    some ({ d with dbgc := { n := n.toNat?.getD 0, exc := exc.toNat?.getD 0 }, dbgf := {} }, "ok")
+  | ["dbg", "msg", id, clocks, qt, mqt, mtok, flags] =>
+    let m : Dbg.Msg :=
+      { id := id.toNat?.getD 0, clocks := parseList clocks, qtick := qt.toNat?.getD 0,
+        mutQTick := mqt.toNat?.getD 0, mutQToken := mtok.toNat?.getD 0,
+        accepted := bit flags 0, isAuto := bit flags 1, isCheck := bit flags 2,
+        isQueued := bit flags 3, healthOnly := bit flags 4 }
+    let c := d.dbgc.push m
+    match c.parsed.getLast? with
+    | some p =>
+      some ({ d with dbgc := c },
+        s!"sum={p.timeSum} diff={p.timeDiff} add={showList p.added} rem={showList p.removed} errs={showList c.errors}")
+    | none => some (d, "bad-op")
+  | ["dbg", "atq", q] => some (d, s!"{Dbg.txAtQueueTick d.dbgc (q.toNat?.getD 0)}")
+  | ["dbg", "atm", s] => some (d, s!"{Dbg.txAtMachTime d.dbgc (s.toNat?.getD 0)}")
+  | ["dbg", "idx", id] => some (d, s!"{Dbg.txIndex d.dbgc (id.toNat?.getD 0)}")
+  | ["dbg", "errs", tx, dist] =>
+    some (d, s!"{Dbg.hadErrSince d.dbgc (tx.toNat?.getD 0) (dist.toNat?.getD 0)}")
+  | ["dbg", "filter", flags] =>
+    let f : Dbg.Filters :=
+      { skipCanceled := bit flags 0, skipAuto := bit flags 1, skipAutoCanceled := bit flags 2,
+        skipEmpty := bit flags 3, skipHealth := bit flags 4, skipQueued := bit flags 5,
+        skipChecks := bit flags 6 }
+    some ({ d with dbgf := f }, s!"shown={showList (Dbg.view d.dbgc f)}")
+  | ["dbg", "nav", cur, dir, amount] =>
+    let cu := cur.toNat?.getD 0
+    let am := amount.toNat?.getD 1
+    let r := if dir == "fwd" then Dbg.fwd d.dbgc d.dbgf cu am
+      else if dir == "set" then Dbg.fixCursor d.dbgc d.dbgf cu am false
+      else Dbg.back d.dbgc d.dbgf cu am
+    some (d, s!"cursor={r}")
+  | _ => none
+
 def stepLine (d : DState) (line : String) : DState × String :=
   let toks0 := (line.trimAscii.toString.splitOn " ").filter (· != "")
+  match stepDbg d toks0 with
+  | some r => r
+  | none =>
   match stepHist d toks0 with
   | some r => r
   | none =>
